@@ -31,12 +31,13 @@ ObsEl(o) == IF o.k = "tbl"
             THEN [k |-> "tbl", cols |-> o.cols,
                   cells |-> [c \in 1..Len(o.cells) |-> [j \in 1..Len(o.cells[c]) |-> ObsItem(o.cells[c][j])]]]
             ELSE ObsItem(o)
-ObsState(e, origin, ninfo, loose) ==
-  [origin |-> origin,
+\* a = the state the specification reaches: what a package cannot show (origin, handles, loose tokens, the caller's files)
+ObsState(e, a) ==
+  [origin |-> a.origin,
    body |-> [i \in 1..Len(e.body) |-> ObsEl(e.body[i])],
    media |-> {[name |-> e.media[i].name, tok |-> e.media[i].tok] : i \in 1..Len(e.media)},
    rels |-> [i \in 1..Len(e.rels) |-> [id |-> e.rels[i].id, kind |-> e.rels[i].kind, tgt |-> e.rels[i].tgt]],
-   ctr |-> -1, ninfo |-> ninfo, loose |-> loose]
+   ctr |-> -1, ninfo |-> a.ninfo, loose |-> a.loose, files |-> a.files]
 
 \* wp:extent and a:ext of one picture must agree (both are "the displayed extent")
 PicItems(b) == UNION {IF b[i].k = "tbl" THEN UNION {{b[i].cells[c][j] : j \in 1..Len(b[i].cells[c])} : c \in 1..Len(b[i].cells)}
@@ -47,13 +48,13 @@ Viol_ExtPair(b) == {<<"extent-inconsistent", "wp:extent/a:ext", "">> :
 Judge(e) ==
   LET name == e.op.op
       exp  == Apply(cur, e.op)
-      obs  == ObsState(e, exp.origin, exp.ninfo, exp.loose)
+      obs  == ObsState(e, exp)
       pre  == <<"C10", name, cur.origin>>
   IN  (IF e.ret = "panic" THEN {pre \o <<"panic", "", "">>} ELSE {})
       \cup (IF ~e.seen THEN {}
             ELSE IF e.saved # "ok" THEN {pre \o <<"unreadable", e.saved, "">>}
             ELSE {pre \o v : v \in Viol_C10(exp, obs) \cup Viol_ExtPair(e.body)}
-                 \cup (IF name \in AddOps /\ e.ret = "ok" /\ Guard(cur, e.op) /\ Resolve(obs, e.info) # e.op.img.t
+                 \cup (IF name \in AddOps /\ e.ret = "ok" /\ Guard(cur, e.op) /\ Resolve(obs, e.info) # Given(cur, e.op).t
                        THEN {pre \o <<"info-relationship", Resolve(obs, e.info), "">>} ELSE {}))
       \* ---- binding notes (no verdict) ----
       \cup (IF e.ret # "panic" /\ e.ret # Ret(cur, e.op) THEN {<<"M10", name, "ret", e.ret>>} ELSE {})
@@ -69,7 +70,7 @@ TStep == /\ l <= Len(Trace) /\ Trace[l].ev = "step"
             IN
               /\ wit' = AddWit(wit, Judge(e), e.case)
               \* resynchronise on what the implementation really did
-              /\ cur' = IF e.seen /\ e.saved = "ok" THEN ObsState(e, a.origin, a.ninfo, a.loose)
+              /\ cur' = IF e.seen /\ e.saved = "ok" THEN ObsState(e, a)
                         ELSE [a EXCEPT !.ctr = -1]
          /\ l' = l + 1
 
